@@ -437,6 +437,11 @@ pub fn tree_case(ch: &mut Chooser) -> Report {
                     }
                 });
             }
+            // the same object written twice gives the same text
+            let (t1, t2) = (format!("{}", v), format!("{}", v));
+            if t1 != t2 {
+                rep.fail("display-depends-on-an-earlier-display", format!("the same value printed as {:?} and then as {:?}", t1, t2));
+            }
             // injectivity against a second, different value from the same choice stream
             let w = gen_value(ch, depth.min(2), &reals2);
             let (sv, sw) = (snapshot(&v), snapshot(&w));
